@@ -685,6 +685,141 @@ def stream_suffix(rng, tier):
         yield "psuffix %s %s %s" % (f, hx(rand_path(rng, f, "any")), hx(rand_path(rng, f, "any", 2)))
 
 
+def stream_views(rng, tier):
+    """C08: views of one value used interchangeably as map keys"""
+    for s in exhaustive("a:/?#.", 4 if tier == "quick" else 5):
+        if ":" in s:
+            yield "views u %s" % hx(s)
+    for s in exhaustive("é:/?#", 4):
+        if ":" in s:
+            yield "views i %s" % hx(s)
+    n = 2000 if tier == "quick" else 50000
+    for _ in range(n):
+        f = rng.choice("ui")
+        yield "views %s %s" % (f, hx(rand_ref(rng, f, True)))
+
+
+def stream_convert(rng, tier):
+    """C13: every conversion between the eight kinds"""
+    for s in exhaustive("a:/?#é", 4 if tier == "quick" else 5):
+        for k in ("uri", "uriref", "iri", "iriref"):
+            yield "convert %s %s" % (k, hx(s))
+    n = 3000 if tier == "quick" else 100000
+    for _ in range(n):
+        f = rng.choice("ui")
+        full = rng.random() < 0.5
+        s = rand_ref(rng, f, full)
+        for k in ("uri", "uriref", "iri", "iriref"):
+            yield "convert %s %s" % (k, hx(s))
+    # C13, second half: the same ASCII operation in both families (both are compared with one
+    # family-generic model, hence with each other)
+    for _ in range(n // 3):
+        b = rand_ref(rng, "u")
+        op = setter_op(rng, "u")
+        yield "hist u ref %s %s" % (hx(b), op)
+        yield "hist i ref %s %s" % (hx(b), op)
+        ops = ";".join(pm_ops(rng, "u", 3))
+        yield "hist u ref %s pm[%s]" % (hx(b), ops)
+        yield "hist i ref %s pm[%s]" % (hx(b), ops)
+        base = rand_ref(rng, "u", True)
+        yield "resolve u %s %s" % (hx(base), hx(b))
+        yield "resolve i %s %s" % (hx(base), hx(b))
+        yield "parts u ref %s" % hx(b)
+        yield "parts i ref %s" % hx(b)
+        yield "cmp u ref %s %s" % (hx(b), hx(base))
+        yield "cmp i ref %s %s" % (hx(b), hx(base))
+        yield "hash u ref %s" % hx(b)
+        yield "hash i ref %s" % hx(b)
+
+
+def stream_routes(rng, tier):
+    """C14: textual routes out of a value (routes in are the `ctor` stream)"""
+    kinds = ["uri", "uriRef", "uriAuthority", "uriUserInfo", "iri", "iriRef", "iriAuthority", "iriUserInfo"]
+    n = 400 if tier == "quick" else 10000
+    for kind in kinds:
+        for _ in range(n):
+            yield "routes %s %s" % (kind, hx(sample_for_kind(rng, kind)))
+        for s in exhaustive("a:/?#\"\\é", 3):
+            yield "routes %s %s" % (kind, hx(s))
+    for kind in KINDS_U + KINDS_I:
+        for _ in range(n // 2):
+            s = sample_for_kind(rng, kind)
+            yield "ctor %s %s" % (kind, hx(s))
+            yield "ctor %s %s" % (kind, hx(mutate(rng, s)))
+        for b in BAD_UTF8:
+            yield "ctor %s %s" % (kind, hx(b))
+
+
+DATA_MT = ["", "text/plain", "a", "image/png", "a#b", "a/b+c", "text/plain;charset=utf-8", "a;x=1", "é", "a b", "A.-_^!$&"]
+DATA_BODY = ["", "A", "SGVsbG8=", "SGVsbG8", "QQ==", "QQ=", "Q", "QR==", "A%20B", "a,b", "a;b", "#f", "a#f", "?q",
+             "////", "+/+/", "AAAA", "AAA=", "AAB=", "=", "====", "QUJD", "QUJDRA==", "é"]
+
+
+def stream_dataurl(rng, tier):
+    """C18"""
+    for mt in DATA_MT:
+        for b64 in ["", ";base64", ";base64x", ";base6", ";BASE64"]:
+            for body in DATA_BODY:
+                for pre in ["data:", "dat:", "DATA:", "data"]:
+                    yield "dataurl %s" % hx(pre + mt + b64 + "," + body)
+                yield "dataurl %s" % hx("data:" + mt + b64 + body)
+    for s in exhaustive("da:,;b", 5 if tier == "quick" else 6):
+        yield "dataurl %s" % hx(s)
+        yield "dataurl %s" % hx("data:" + s)
+    n = 1000 if tier == "quick" else 50000
+    b64c = "ABCDabcd0189+/="
+    for _ in range(n):
+        body = "".join(rng.choice(b64c) for _ in range(rng.randrange(0, 12)))
+        yield "dataurl %s" % hx("data:" + rng.choice(DATA_MT) + ";base64," + body)
+        yield "dataurl %s" % hx(mutate(rng, "data:" + rng.choice(DATA_MT) + rng.choice(["", ";base64"]) + "," + body))
+
+
+PCT_ATOMS = ["a", "%41", "%C3%A9", "%c3%a9", "é", "%E2%82%AC", "%F0%9F%98%80", "%80", "%BF", "%C3", "%E2%82",
+             "%C0%AF", "%E0%80%AF", "%ED%A0%80", "%F4%90%80%80", "%F5", "%FF", "%C3a", "%2F", "%25", "-", "~", "%00",
+             "%E2", "%82", "%AC", "%F0%9F", "%98%80", "%c0%80", "%FE", "%7F", "%C2%80"]
+
+
+def stream_pct(rng, tier):
+    """C19"""
+    kinds = ["segment", "userinfo", "host", "query", "fragment"]
+    for a in PCT_ATOMS:
+        for b in [""] + PCT_ATOMS:
+            for kind in kinds if tier == "thorough" else kinds[:2]:
+                for f in "ui":
+                    if f == "u" and "é" in a + b:
+                        continue
+                    yield "pct %s %s %s" % (f, kind, hx(a + b))
+    n = 2000 if tier == "quick" else 100000
+    for _ in range(n):
+        f = rng.choice("ui")
+        s = "".join(rng.choice(PCT_ATOMS) for _ in range(rng.randrange(0, 5)))
+        if f == "u":
+            s = s.replace("é", "e")
+        yield "pct %s %s %s" % (f, rng.choice(kinds), hx(s))
+    for s in exhaustive("a%4C3é", 4 if tier == "quick" else 5):
+        yield "pct i segment %s" % hx(s)
+
+
+def stream_ptr(rng, tier):
+    """C20"""
+    for s in exhaustive("a:/?#@.", 4 if tier == "quick" else 6):
+        yield "ptr u ref %s" % hx(s)
+        if ":" in s:
+            yield "ptr u full %s" % hx(s)
+    for s in exhaustive("é:/?#", 4):
+        yield "ptr i ref %s" % hx(s)
+    n = 3000 if tier == "quick" else 100000
+    for _ in range(n):
+        f = rng.choice("ui")
+        full = rng.random() < 0.4
+        yield "ptr %s %s %s" % (f, "full" if full else "ref", hx(rand_ref(rng, f, full)))
+    # inputs far larger than any inline buffer
+    for k in ([2000, 70000] if tier == "quick" else [2000, 70000, 1200000]):
+        big = "s://u@h:1" + "/seg" * k + "/../x?" + "q" * 1000 + "#" + "f" * 1000
+        yield "ptrbig u full %s" % hx(big)
+        yield "ptrbig i ref %s" % hx(big.replace("seg", "sé"))
+
+
 STREAMS = {
     "ctor": stream_ctor,
     "parts": stream_parts,
@@ -698,6 +833,12 @@ STREAMS = {
     "paths": stream_paths,
     "relto": stream_relto,
     "suffix": stream_suffix,
+    "views": stream_views,
+    "convert": stream_convert,
+    "routes": stream_routes,
+    "dataurl": stream_dataurl,
+    "pct": stream_pct,
+    "ptr": stream_ptr,
 }
 
 
